@@ -14,6 +14,9 @@ TRUSTED = [
 ASSUMPTIONS = [
     "statement granularity = CPython `line` trace events; pre-emption inside a statement (bytecode level) and the GIL hand-off are not modelled",
     "no mutation of an rruleset while iterators are live (that is C10's history domain)",
+    "the underlying generator (`self._iter()`) NEVER RAISES anything but StopIteration: in the model `next(gen)` yields the next value of a finite "
+    "list or ends. When it does raise (e.g. a set with a naive and an aware date) the cached object differs from the uncached one afterwards: "
+    "known finding D-C11-genraise (oracle case generator_raises)",
     "query methods are paused only at their first statement (the fast-path test) and inside __iter__/_iter_cached; their other statements touch only thread-local state",
 ]
 RULE = ("schedules: (a) every next()-interleaving with <= 2 (thorough 3) switches of 2-3 iterators over src lengths 0,1,9,10,11,19,20,21; "
@@ -426,12 +429,41 @@ def oracle(ctx):
         L, tr, fin, res, st = run_thread_case(kind, n, qs, segs)
         judge_threads(ctx, {"rule": kind, "n": n, "L": L, "qs": [list(q) for q in qs], "segs": [list(s) for s in segs], "res": res, "st": st})
     free_running_smoke(ctx)
+    generator_raises(ctx)
     for r in runs:
         if r["kind"] == "threads" and len(r["qs"]) >= 3:
             ctx.sample({"rule": r["rule"], "n": r["n"], "queries": [q_wire(tuple(q)) for q in r["qs"]],
                         "schedule": sched.seg_wire([tuple(s) for s in r["segs"]]), "answers": r["res"], "statuses": r["st"]}, cap=4)
     ctx.sample({"kind": "nexts", "n": 13, "ops": "n1,n0 x14,n1 x14 (the schedule that dead-locked before fix a459cd4)",
                 "out": run_nexts_case("daily", 13, 2, ["n1"] + ["n0"] * 14 + ["n1"] * 14)[1]})
+
+
+def generator_raises(ctx):
+    """the underlying generator RAISES (a naive and an aware rdate cannot be ordered): the uncached set raises TypeError on every
+    operation; a cached one must behave the same.  The model assumes the underlying generator never raises (ASSUMPTIONS);
+    what the code does instead is known finding D-C11-genraise, accepted only in exactly its documented shape."""
+    from dateutil import rrule as R
+    import datetime as D
+
+    def outcomes(cache):
+        s = R.rruleset(cache=cache)
+        s.rdate(D.datetime(2020, 1, 1)); s.rdate(D.datetime(2020, 1, 2, tzinfo=D.timezone.utc))
+        out = []
+        for op in (lambda: list(s), lambda: list(s), lambda: list(s), lambda: s.count(), lambda: D.datetime(2020, 1, 1) in s):
+            try:
+                out.append(repr(op()))
+            except Exception as ex:
+                out.append(type(ex).__name__)
+        return out
+    want, got = outcomes(False), outcomes(True)
+    ctx.case(("generator-raises",), nontrivial=True)
+    ctx.count("generator_raises_case")
+    if got != want:
+        ctx.violation("the underlying generator raises: the uncached set gives %s on list, list, list, count, in; the cached one gives %s" % (want, got),
+                      {"kind": "genraise", "cached": got, "uncached": want}, None)
+
+
+GENRAISE_DOCUMENTED = ["TypeError", "TypeError", "[]", "None", "False"]
 
 
 def free_running_smoke(ctx):
@@ -460,7 +492,12 @@ def free_running_smoke(ctx):
         ctx.count("free_running_smoke")
 
 
-KNOWN = {}
+KNOWN = {
+    # accepted only in exactly the documented shape: first listing raises like the uncached set, the second raises TypeError from
+    # `i < self._len` (None), after that the object claims to be a complete EMPTY sequence with count() None
+    "D-C11-genraise": lambda v: v["case"].get("kind") == "genraise" and v["case"].get("cached") == GENRAISE_DOCUMENTED
+    and v["case"].get("uncached") == ["TypeError"] * 5,
+}
 
 
 def replay(ctx, payload):
